@@ -61,10 +61,20 @@ structure VisitSt where
 
 abbrev Analyse := Refs → List String → Fn → ArgCtx → Except DdsErr (FIS × Refs)
 
-/-- the context signature of a call site -/
-def siteCtx (m : Nat) (fn : Fn) (inputSig : Sg) (inters : List FIS) (line : Nat) : Except DdsErr (Option Sg) := do
+/-- the resolved signatures of the paths loaded so far in the body (those that resolve) -/
+def loadsSigList (refs : Refs) : List String → List (String × Sg)
+  | [] => []
+  | p :: ps => match aget refs p with
+    | some s => ("dep_" ++ p, s) :: loadsSigList refs ps
+    | none => loadsSigList refs ps
+
+/-- the context signature of a call site: the caller's text up to the end of the call, the caller's inputs,
+the calls met so far and (since the `fix:` commit for load-derived arguments) the paths loaded so far -/
+def siteCtx (m : Nat) (fn : Fn) (inputSig : Sg) (inters : List FIS) (line : Nat)
+    (refs : Refs := []) (loads : List String := []) : Except DdsErr (Option Sg) := do
   let bodyHash ← hashLines m (fn.lines.take (line + 1))
-  pure (contextSig bodyHash inputSig (hashCommut (fisSigList (inters.map FIS.retSig))))
+  pure (contextSig bodyHash inputSig
+    (hashCommut (fisSigList (inters.map FIS.retSig) ++ loadsSigList refs (dedupStr loads))))
 
 /-- `IntroVisitor.visit_Call` / `visit_Name` + `InspectFunction.inspect_call`, one item -/
 def visitItem (m : Nat) (W : World) (rec : Analyse) (fn : Fn) (inputSig : Sg) (stack : List String)
@@ -73,7 +83,7 @@ def visitItem (m : Nat) (W : World) (rec : Analyse) (fn : Fn) (inputSig : Sg) (s
   | .callArgs f args kwargs _ _ line => plain st f args kwargs line
   | .ref f line => if f ∈ st.seen then .ok st else plain st f [] [] line
   | .keep path f args kwargs _ _ line => do
-    let ctx ← siteCtx m fn inputSig st.inters line
+    let ctx ← siteCtx m fn inputSig st.inters line st.refs st.loads
     if !pathAbsolute path then .error .pathNotAbsolute else
     match W.find f with
     | none => .error .objectNotFound
@@ -89,7 +99,7 @@ def visitItem (m : Nat) (W : World) (rec : Analyse) (fn : Fn) (inputSig : Sg) (s
   | .evalCall _ _ => .error .evalInEval
 where
   plain (st : VisitSt) (f : String) (args : List AstArg) (kwargs : List (String × AstArg)) (line : Nat) : Except DdsErr VisitSt := do
-    let ctx ← siteCtx m fn inputSig st.inters line
+    let ctx ← siteCtx m fn inputSig st.inters line st.refs st.loads
     match W.find f with
     | none => .error .objectNotFound
     | some g =>
